@@ -38,6 +38,17 @@ theorem C07_marked_pcmp (ops : FieldOps α) (ti : TypeInfo) (it : Item) (k k' : 
   simp only [specPartialCmp, hda, hdb]
   rcases h with h | h | h <;> simp [h]
 
+/-- "also when a value is compared with itself": a value of a marked variant (or of a marked item) is not equal to
+itself and not ordered with itself — the derived relations are deliberately irreflexive there. -/
+theorem C07_self_compare (ops : FieldOps α) (ti : TypeInfo) (it : Item) (k : Nat) (fa : List (Val α))
+    (da : Data) (hda : it.variants[k]? = some da)
+    (h : it.markedIncomparable = true ∨ da.incomparable = true) :
+    specEq ops it (.adt k fa) (.adt k fa) = false ∧
+      specPartialCmp ops ti it (.adt k fa) (.adt k fa) = none :=
+  have h' : it.markedIncomparable = true ∨ da.incomparable = true ∨ da.incomparable = true :=
+    h.elim Or.inl (fun h => Or.inr (Or.inl h))
+  ⟨C07_marked_eq ops it k k fa fa da da hda hda h', C07_marked_pcmp ops ti it k k fa fa da da hda hda h'⟩
+
 /-- The generated `eq` returns `false` on marked operands. -/
 theorem C07_eq_eval (c : Cfg) (it : Item) (cx : SemCtx α) (hwf : it.WF)
     (hnu : ∀ d ∈ it.variants, d.shape ≠ .union) (k k' : Nat) (fa fb : List (Val α))
